@@ -124,10 +124,16 @@ def unescape_tla(s):
     return json.loads('"' + s + '"')
 
 
-def trace_validate(spec, shard_files, wd, timeout=1500, xmx="2g"):
+# per-shard time limit of a trace validation (bin/check raises it for the thorough tier)
+TV_TIMEOUT = 1500
+
+
+def trace_validate(spec, shard_files, wd, timeout=None, xmx="2g"):
     """Validates each shard with its own single-worker TLC. Returns dict with mismatches
     (each with shard path), states, and raises ToolError on anything unexpected."""
     jobs = []
+    if timeout is None or timeout < TV_TIMEOUT:
+        timeout = TV_TIMEOUT
     for i, sh in enumerate(shard_files):
         if os.path.getsize(sh) == 0:
             continue
